@@ -314,8 +314,64 @@ def find_loops(body):
     return loops
 
 
+def find_closures(body):
+    """[(start_of_params, end_of_params, body_start, body_end)] for closures in argument / initialiser position."""
+    m, _ = mask(body)
+    res = []
+    for mm in re.finditer(r'\|([^|\n;{}]*)\|', m):
+        j = mm.start() - 1
+        while j >= 0 and m[j].isspace():
+            j -= 1
+        if j < 0 or m[j] not in '(,=':
+            continue
+        # body: up to the first ',' or closing bracket at depth 0
+        k = mm.end()
+        depth = 0
+        n = len(m)
+        while k < n:
+            c = m[k]
+            if c in '([{':
+                depth += 1
+            elif c in ')]}':
+                if depth == 0:
+                    break
+                depth -= 1
+            elif c == ',' and depth == 0:
+                break
+            k += 1
+        res.append((mm.start(), mm.end(), mm.end(), k))
+    return res
+
+
+def annotate_closures(body, contract, applied):
+    """A4: `@closure K -> (r: T) ensures E` gives the K-th closure (textual order) a return name and an ensures
+    clause; its body expression is wrapped in braces, otherwise untouched."""
+    dirs = [(arg, text) for kind, arg, text in contract.directives if kind == 'closure']
+    if not dirs:
+        return body
+    edits = []
+    cl = find_closures(body)
+    for arg, text in dirs:
+        mm = re.match(r'(\d+)\s*(->.*)$', (arg + ' ' + text.strip()).strip(), re.S)
+        if not mm:
+            raise GenError('%s: bad @closure' % contract.origin)
+        k = int(mm.group(1))
+        if k >= len(cl):
+            raise GenError('%s: %s has %d closures, contract names closure %d (lost anchor)' % (contract.origin, contract.key, len(cl), k))
+        ps, pe, bs, be = cl[k]
+        expr = body[bs:be].strip()
+        if expr.startswith('->'):
+            raise GenError('%s: closure %d already has a return annotation' % (contract.origin, k))
+        edits.append((bs, be, ' ' + mm.group(2).strip() + ' { ' + expr + ' }'))
+    for bs, be, new in sorted(edits, reverse=True):
+        body = body[:bs] + new + body[be:]
+    applied.append({'rule': 'A4', 'closures_annotated': len(edits)})
+    return body
+
+
 def splice(body, contract, applied):
     """Apply contract directives to the (already rewritten) body."""
+    body = annotate_closures(body, contract, applied)
     # 1. site-specific substitutions first (they can create loops)
     for kind, arg, text in contract.directives:
         if kind == 'rule':
@@ -342,7 +398,7 @@ def splice(body, contract, applied):
     nloop_dirs = set()
     degraded = []
     for idx, (kind, arg, text) in enumerate(contract.directives):
-        if kind in ('subst', 'rule'):
+        if kind in ('subst', 'rule', 'closure'):
             continue
         if kind == 'foriter':
             k, nm = arg.split()
@@ -454,6 +510,7 @@ def desugar_impl_args(head):
 # type extraction
 # --------------------------------------------------------------------------
 TYPE_MAP = [
+    (r'\bk256::ecdsa::Signature\b', 'SecpSignature'),
     (r'\bstd::io::Error\b', 'IoError'),
     (r'\becdsa::Error\b', 'EcdsaError'),
     (r'\belliptic_curve::Error\b', 'CurveError'),
@@ -816,4 +873,7 @@ def enum_table(name, relpath, fname, info):
             '    #[verifier::external_body] pub fn to_u32(&self) -> (r: Option<u32>) ensures r == Some((*self as u8) as u32) { unimplemented!() }\n'
             '    #[verifier::external_body] pub fn ge(&self, other: &Self) -> (r: bool) ensures r == ((*self as u8) >= (*other as u8)) { unimplemented!() }\n'
             '    #[verifier::external_body] pub fn to_i32(&self) -> (r: Option<i32>) ensures r == Some((*self as u8) as i32) { unimplemented!() }\n'
-            '}\n' % (name, arms, name, name, name))
+            '}\n'
+            'impl FromPrimitive for %s { open spec fn fp_valid(b: u8) -> bool { %s::valid_disc_from_u8(b as int) } open spec fn fp_disc(&self) -> u8 { *self as u8 }\n'
+            '    #[verifier::external_body] fn from_u8(b: u8) -> (r: Option<%s>) { unimplemented!() } }\n'
+            % (name, arms, name, name, name, name, name, name))
